@@ -103,6 +103,18 @@ def setPrefix (xs : List Int) (k : Int) (v : List Int) : List Int := v ++ xs.dro
 /-- `xs[k:] = v` -/
 def setSuffix (xs : List Int) (k : Int) (v : List Int) : List Int := xs.take (clip xs k) ++ v
 
+/-- `xs[a:b]` -/
+def slice (xs : List Int) (a b : Int) : List Int := (xs.drop (clip xs a)).take (clip xs b - clip xs a)
+
+/-- `xs.find(bytes([c]))`: index of the first occurrence, `-1` when there is none -/
+def findByteFrom (c : Int) : List Int → Nat → Int
+  | [], _ => -1
+  | x :: xs, i => if x = c then (i : Int) else findByteFrom c xs (i + 1)
+def findByte (xs : List Int) (c : Int) : Int := findByteFrom c xs 0
+
+/-- `bs.decode('windows-1252', 'replace')` (the table model `Ansi.decode`, validated against CPython for all 256 bytes) -/
+def decodeAnsi (bs : List Int) : List Nat := Ansi.decode (bs.map Int.toNat)
+
 /-- `for i in range(n): body` over the variables the body assigns (`σ`); the `Bool` is "a `break` was executed". -/
 def forRangeGo {σ} (body : Int → σ → M (σ × Bool)) : Nat → Int → σ → M σ
   | 0, _, s => .ok s
@@ -114,6 +126,10 @@ def forRangeGo {σ} (body : Int → σ → M (σ × Bool)) : Nat → Int → σ 
 
 def forRange {σ} (n : Int) (s : σ) (body : Int → σ → M (σ × Bool)) : M σ :=
   forRangeGo body n.toNat 0 s
+
+/-- `for i in range(a, b): body` -/
+def forRange2 {σ} (a b : Int) (s : σ) (body : Int → σ → M (σ × Bool)) : M σ :=
+  forRangeGo body (b - a).toNat a s
 
 /-- `while cond: body`; running out of `fuel` is reported as `Diverges`. -/
 def whileLoop {σ} (cond : σ → Bool) (body : σ → M σ) : Nat → σ → M σ
